@@ -50,14 +50,20 @@ class Strict:
                 return labels, (end if end is not None else pos + 1)
             if b < 64:
                 self.need(pos + 1 + b <= self.n)
-                lab = []
-                k = 1
-                while k <= b:
-                    lab.append(self.p[pos + k])
-                    k = k + 1
+                raw = self.p._slice(pos + 1, pos + 1 + b) if hasattr(self.p, '_slice') else None
+                if type(raw) is bytes and len(raw) == b:
+                    lab = list(raw)  # a stretch of concrete octets, read at once
+                else:
+                    lab = []
+                    k = 1
+                    while k <= b:
+                        lab.append(self.p[pos + k])
+                        k = k + 1
                 labels.append(lab)
                 total = total + 1 + b
-                self.need(total <= 254)
+                # the property fixes names at <= 253 characters counting the trailing dot (RFC 1035's 255-octet wire limit
+                # would admit one more); a strict reader "in the property's sense" applies the same limit
+                self.need(total <= 253)
                 pos = pos + 1 + b
             elif b >= 192:
                 self.need(pos + 1 < self.n)
@@ -420,6 +426,64 @@ def make_chain(shape: Dict[str, Any]) -> Any:
     return fn
 
 
+def long_name_packet(ctx: Any, lens: List[int], where: str, window: int = 0) -> SymPacket:
+    """A response with two records around one long name made of concrete labels of the given lengths (text length =
+    sum + count).  where = 'rdata': the long name is the PTR target of record 1 and the owner of record 2 is a bare
+    pointer whose low octet is a solver variable (it lands on the long name, on one of its label boundaries, inside
+    a label, on the header ...); 'owner': the long name is the owner of record 1 and record 2 points into it."""
+    name = b''.join(bytes([n]) + b'a' * n for n in lens) + b'\x00'
+    ident = wire.Tok(0x1234, 2)  # concrete: the pointer may land on the header, where a symbolic octet read as a length only multiplies paths
+    hdr = [ident, wire.Tok(0x8400, 2), wire.Tok(0, 2), wire.Tok(2, 2), wire.Tok(0, 2), wire.Tok(0, 2)]
+    fixed = [wire.Tok(12, 2), wire.Tok(1, 2), wire.Tok(4500, 4)]
+    if where == 'rdata':
+        rec1 = [wire.Tok(1, 1), b'o', wire.Tok(0, 1)] + fixed + [wire.Tok(len(name), 2), name]
+    else:
+        rec1 = [name] + fixed + [wire.Tok(3, 2), wire.Tok(1, 1), b't', wire.Tok(0, 1)]
+    rec2 = [wire.Tok(0xC0, 1), wire.sym_octet(ctx.int('pointer_low_octet', 128 * window, 128 * window + 127)), wire.Tok(1, 2), wire.Tok(0x8001, 2), wire.Tok(120, 4), wire.Tok(4, 2), wire.Tok(0x0A000001, 4)]
+    return SymPacket(hdr + rec1 + rec2)
+
+
+def make_long_name(shape: Dict[str, Any]) -> Any:
+    lens, where, window = shape['labels'], shape['where'], shape.get('window', 0)
+
+    def fn(ctx: Any) -> None:
+        env.begin(ctx, 1000)
+        dns.hash = lambda t: 0  # type: ignore[attr-defined]
+        del OCTET_TABLE[:]
+        try:
+            pkt = long_name_packet(ctx, lens, where, window)
+            try:
+                msg = DNSIncoming(pkt, ('10.0.0.9', 5353), None, 1000)  # type: ignore[arg-type]
+                answers = msg.answers()
+            except Exception as e:
+                ctx.check(False, f'exception {type(e).__name__} escaped the decoder')
+                return
+            if ctx.twin:
+                return
+            if msg.valid:
+                for r in answers:
+                    ctx.check(len(r.name) <= 253, 'decoded record name longer than 253 characters')
+                    alias = getattr(r, 'alias', None)
+                    if alias is not None:
+                        ctx.check(len(alias) <= 253, 'decoded pointer target longer than 253 characters')
+            try:
+                ref = Strict(pkt).parse()
+            except (Reject, IndexError):
+                return
+            if not ctx.check(msg.valid, 'a datagram the strict RFC 1035 reader accepts is marked invalid'):
+                return
+            if not ctx.check(len(answers) == len(ref['records']), f'{len(answers)} records decoded, strict reader has {len(ref["records"])}'):
+                return
+            for r, w in zip(answers, ref['records']):
+                ctx.check(same_labels(labels_of(r.name), w['name']), 'record owner name differs from the strict reader')
+                if isinstance(r, DNSPointer):
+                    ctx.check(same_labels(labels_of(r.alias), w['rdata']), 'pointer target differs from the strict reader')
+        finally:
+            dns.hash = env._native_hash  # type: ignore[attr-defined]
+
+    return fn
+
+
 def obligations(tier: str) -> List[Obligation]:
     obs = []
     P = 5 if tier == 'quick' else 7
@@ -448,6 +512,13 @@ def obligations(tier: str) -> List[Obligation]:
     for direction, k, broken in chains:
         shape = {'cells': k, 'broken': broken, 'direction': direction}
         obs.append(Obligation(f'chain[{direction};cells={k};broken={broken if broken is not None else "-"}]', make_chain(shape), 'chain', shape, timeout=280 if tier == 'quick' else 1500))
+    # names of 253 (longest legal), 254 and about 300 characters
+    longs = [('253', [63, 63, 63, 60]), ('254', [63, 63, 63, 61]), ('300', [63, 63, 63, 63, 43])]
+    for label, lens in longs:
+        for where in (('rdata', 'owner') if (tier != 'quick' or label != '300') else ('rdata',)):
+            for window in (0, 1):  # the pointer's low octet ranges over 128 * window .. 128 * window + 127
+                shape = {'labels': lens, 'where': where, 'window': window}
+                obs.append(Obligation(f'long-name[{label};{where};window={window}]', make_long_name(shape), 'long-name', shape, timeout=280 if tier == 'quick' else 1500))
     for p in ((0, 1) if tier == 'quick' else (0, 1, 2)):
         shape = {'payload': p, 'counts': 'symbolic'}
         obs.append(Obligation(f'decode[symbolic-header;payload={p}]', make(shape), 'decode-header', shape, timeout=280 if tier == 'quick' else 1500))
